@@ -149,6 +149,19 @@ def run(tier, v):
                 part = uniq[chunk:chunk + 200]
                 meta[i] = {"http": t.startswith("http"), "sver": [e["sig"]["ver"] for e in db[t]], "obs": part, "db": None, "table": t}
                 f.write(json.dumps({"op": "match", "id": i, "db": None, "table": t, "obs": part}) + "\n")
+        # databases larger than any index type one might pick by mistake: 65 540 labels in one section, and one label with 65 540
+        # signatures; the observation conforms to exactly one signature, which stands behind position 65 536
+        NBIG = 65540
+        sigtext = lambda j: "sig = 4:64:0:%d:mss*4,%d:mss,nop,ws:df,id+:0" % (j % 65000 + 1, j // 65000)
+        big_obs = lambda j: {"ver": "4", "pclass": "0", "olayout": [{"k": "mss", "n": 0}, {"k": "nop", "n": 0}, {"k": "ws", "n": 0}], "mss": j % 65000 + 1,
+                             "ittl": {"k": "dist", "a": 57, "b": 7}, "olen": 0, "wsize": {"k": "mss", "n": 4}, "wscale": j // 65000, "quirks": ["df", "id+"]}
+        many_labels = "[tcp:request]\n" + "".join("label = s:unix:Os%d:f\n%s\n" % (j, sigtext(j)) for j in range(1, NBIG + 1))
+        one_label = "[tcp:response]\nlabel = s:unix:Big:f\n" + "".join(sigtext(j) + "\n" for j in range(1, NBIG + 1))
+        for dbt, table in ((many_labels, "tcp_request"), (one_label, "tcp_response")):
+            i = len(meta)
+            obs_ = [big_obs(65538), big_obs(NBIG), big_obs(7), big_obs(65536)]
+            meta[i] = {"http": False, "sver": ["4"] * NBIG, "obs": obs_, "db": "<generated: %d signatures in [%s]>" % (NBIG, table), "table": table}
+            f.write(json.dumps({"op": "match", "id": i, "db": dbt, "table": table, "obs": obs_}) + "\n")
     out = os.path.join(wd, "observed.ndjson")
     vlib.run_hv("db", vec, out)
     trace = os.path.join(wd, "trace.ndjson")
@@ -164,6 +177,19 @@ def run(tier, v):
                 n_ev += 1
                 n_rep += r["rep"] > 0
                 n_multi += sum(1 for d in r["dists"] if d >= 0) > 1
+                if len(r["dists"]) > 5000:
+                    # very large tables: run-length encoded (TV_C02!GoodRuns); qbest = the quality the harness computed for the first entry
+                    # with the smallest distance of the runs
+                    runs = []
+                    for d in r["dists"]:
+                        if runs and runs[-1][0] == d:
+                            runs[-1][1] += 1
+                        else:
+                            runs.append([d, 1])
+                    acc = [d for d in r["dists"] if d >= 0]
+                    qbest = r["qs"][r["dists"].index(min(acc))] if acc else -1
+                    f.write(json.dumps({"id": o["id"], "k": k, "runs": runs, "qbest": qbest, "rep": r["rep"], "rq": r["rq"]}) + "\n")
+                    continue
                 f.write(json.dumps({"id": o["id"], "k": k, "http": m["http"], "dists": r["dists"], "qs": r["qs"], "rep": r["rep"],
                                     "rq": r["rq"], "sver": m["sver"], "over": m["obs"][k]["ver"]}) + "\n")
                 if len(samples) < 2 and r["rep"] > 0 and sum(1 for d in r["dists"] if d >= 0) > 1:
